@@ -10,6 +10,7 @@ pub mod c05;
 pub mod c07;
 pub mod c08;
 pub mod c11;
+pub mod c12;
 pub mod histories;
 
 pub type Ctr = BTreeMap<String, u64>;
@@ -33,17 +34,20 @@ pub struct Violation {
 #[derive(Clone, Debug)]
 pub enum Scenario {
     Session(Session),
+    Cli(crate::cli::CliCase),
 }
 
 impl Scenario {
     pub fn to_j(&self) -> J {
         match self {
             Scenario::Session(s) => J::obj().set("kind", J::s("session")).set("session", s.to_j()),
+            Scenario::Cli(c) => J::obj().set("kind", J::s("cli")).set("cli", c.to_j()),
         }
     }
     pub fn from_j(j: &J) -> Result<Scenario, String> {
         match j.str_of("kind")?.as_str() {
             "session" => Ok(Scenario::Session(Session::from_j(j.get("session").ok_or("no session")?)?)),
+            "cli" => Ok(Scenario::Cli(crate::cli::CliCase::from_j(j.get("cli").ok_or("no cli case")?)?)),
             k => Err(format!("unknown scenario kind {k}")),
         }
     }
@@ -75,7 +79,7 @@ pub trait Prop: Sync {
 }
 
 pub fn all() -> Vec<Box<dyn Prop>> {
-    vec![Box::new(c05::C05), Box::new(c07::C07), Box::new(c08::C08), Box::new(c11::C11), Box::new(histories::C01), Box::new(histories::C03), Box::new(histories::C06), Box::new(histories::C09)]
+    vec![Box::new(c05::C05), Box::new(c07::C07), Box::new(c08::C08), Box::new(c11::C11), Box::new(c12::C12), Box::new(histories::C01), Box::new(histories::C03), Box::new(histories::C06), Box::new(histories::C09)]
 }
 
 pub fn by_id(id: &str) -> Option<Box<dyn Prop>> {
